@@ -7,4 +7,4 @@
 From FRP Require Export Model.FrameSys Model.Alloc gen.GenAlloc.
 
 Definition fs_login_oracle (pool_count max_pool_count : Z) (rid : bytes) : fs_handler :=
-  if al_makechan_ok (gen_chan_cap (gen_pool_count pool_count max_pool_count)) then HAccept rid else HCrash.
+  if al_makechan_ok (gen_chan_cap pool_count max_pool_count) then HAccept rid else HCrash.
